@@ -229,6 +229,9 @@ def build(tree, placement=None, ntables=1, table_order="fwd", free_at=None, seqs
                 img.extend(b"\0" * (off + asz - len(img)))
             img[off:off + len(data)] = data
         oe.append((3, off, asz, 1))
+    if holes:
+        # released slots that still describe a file object: same offset as a live one, the (smaller) size it had before it grew
+        oe = [(3, off, 0x800, 0) for off, asz, data in fileobjs[:1]] + oe + [(3, off, 0x800, 0) for off, asz, data in fileobjs]
     if extra_replay_log:
         r2 = replay()
         img[0x9000:0x9000 + len(r2)] = r2
